@@ -287,23 +287,30 @@ fn compare_decoded(bytes: &[u8]) -> Result<usize, String> {
 /// One deposit / withdrawal / swap on the same market bytes: program side through the REAL
 /// `RevertibleLiquidityMarket` (hook `gmsol_store::verif::c40::run_action`, commit included), SDK
 /// side through `MarketModel`. Returns Ok(outcome tag) when report and resulting state agree.
-fn run_action_case(seed: u64) -> Result<String, String> { quiet(|| run_action_case_inner(seed)) }
+static LAST_ACTION: std::sync::Mutex<Option<String>> = std::sync::Mutex::new(None);
+fn run_action_case(seed: u64) -> Result<String, String> {
+    let r = quiet(|| run_action_case_inner(seed));
+    *LAST_ACTION.lock().unwrap() = r.as_ref().ok().cloned();
+    r
+}
 
 /// run `f` with fd 1 pointing at /dev/null (natively `msg!` prints to stdout and would interleave with the protocol)
 fn quiet<T>(f: impl FnOnce() -> T) -> T {
     use std::io::Write;
+    // fd 1 is restored even if `f` panics (the panic is caught further up)
+    struct Restore(i32);
+    impl Drop for Restore {
+        fn drop(&mut self) { let _ = std::io::stdout().flush(); unsafe { libc::dup2(self.0, 1); libc::close(self.0); } }
+    }
     let _ = std::io::stdout().flush();
-    unsafe {
+    let _r = unsafe {
         let saved = libc::dup(1);
         let null = libc::open(b"/dev/null\0".as_ptr() as *const libc::c_char, libc::O_WRONLY);
         libc::dup2(null, 1);
-        let r = f();
-        let _ = std::io::stdout().flush();
-        libc::dup2(saved, 1);
-        libc::close(saved);
         libc::close(null);
-        r
-    }
+        Restore(saved)
+    };
+    f()
 }
 
 fn run_action_case_inner(seed: u64) -> Result<String, String> {
@@ -548,7 +555,7 @@ fn main() {
         let mut it = req.split(' ');
         let op = it.nth(1).unwrap_or("?").to_string();
         out.stat(&format!("op.{op}"));
-        if op == "action" { if let Some(seed) = req.split(' ').nth(2).and_then(|x| x.parse::<u64>().ok()) { if let Ok(tag) = run_action_case(seed) { out.stat(&format!("action.{tag}")); } } }
+        if op == "action" { if let Some(tag) = LAST_ACTION.lock().unwrap().take() { out.stat(&format!("action.{tag}")); } }
         if op == "poolop" { out.stat(&format!("poolop.{}", req.split(' ').nth(6).unwrap_or("?"))); }
         out.stat(&format!("resp.{}", resp.split(' ').next().unwrap_or("?")));
         if resp == "panic" { out.oracle_fail("panicked", &req); }
